@@ -55,27 +55,30 @@ inductive Resp where
 
 /-- `newUUID(assign)`: allocate the next version id for a given or generated uuid.  Whether a caller-assigned
     uuid that already names a node is refused is a regenerated fact (`Gen.newUUIDChecksExisting`). -/
+def uuidFor (assign : Option String) (v : Nat) : String :=
+  match assign with | some u => u | none => "g" ++ toString v
+
 def newUUID (s : State) (assign : Option String) : Option (State × String × Nat) :=
-  let v := s.nextV
-  let uuid := match assign with | some u => u | none => "g" ++ toString v
-  if Gen.newUUIDChecksExisting && (lookup s.u2v uuid).isSome then none
-  else some ({ s with v2u := setKey s.v2u v uuid, u2v := setKey s.u2v uuid v, nextV := v + 1 }, uuid, v)
+  if Gen.newUUIDChecksExisting && (lookup s.u2v (uuidFor assign s.nextV)).isSome then none
+  else some ({ s with v2u := setKey s.v2u s.nextV (uuidFor assign s.nextV),
+                      u2v := setKey s.u2v (uuidFor assign s.nextV) s.nextV, nextV := s.nextV + 1 },
+             uuidFor assign s.nextV, s.nextV)
 
 /-- `newRepo(alias, description, assign, passcode)` -/
+def repoClash (s : State) (assign : Option String) : Bool :=
+  match assign with | some u => (lookup s.repos u).isSome | none => false
+
 def newRepo (s : State) (assign : Option String) : State × Resp :=
-  let clash := match assign with | some u => (lookup s.repos u).isSome | none => false
-  if clash then (s, .err)
+  if repoClash s assign then (s, .err)
   else match newUUID s assign with
     | none => (s, .err)
     | some (s1, uuid, v) =>
-      let id := s1.nextRepo
-      let s2 := { s1 with
-        nextRepo := id + 1,
-        repoIds := setKey s1.repoIds id uuid,
+      ({ s1 with
+        nextRepo := s1.nextRepo + 1,
+        repoIds := setKey s1.repoIds s1.nextRepo uuid,
         repos := setKey s1.repos uuid uuid,
         branches := setKey s1.branches (uuid ++ "master") uuid,
-        nodes := s1.nodes ++ [⟨v, uuid, uuid, [], [], "", false⟩] }
-      (s2, .ok uuid)
+        nodes := s1.nodes ++ [⟨v, uuid, uuid, [], [], "", false⟩] }, .ok uuid)
 
 /-- `commit(uuid, …)` preceded by the handler's locked check -/
 def commit (s : State) (uuid : String) : State × Resp :=
@@ -86,6 +89,27 @@ def commit (s : State) (uuid : String) : State × Resp :=
     | none => (s, .err)
   | _, _ => (s, .err)
 
+/-- the branch-uniqueness check of `newVersion`: `none` = ErrBranchUnique (or a missing sibling);
+    otherwise the branch name the child gets -/
+def branchOk (s : State) (repo : String) (node : Node) (branchname : String) : Option String :=
+  if branchname == "" || branchname == node.branch then
+    -- no existing child may already continue this branch
+    if node.children.all (fun c => match s.node? repo c with
+        | some sis => sis.branch != node.branch
+        | none => false) then some node.branch else none
+  else
+    if (s.nodes.filter (·.repo = repo)).all (fun n => n.branch != branchname) then some branchname else none
+
+/-- the mutations of `newVersion` once the child's uuid and version id exist -/
+def attachChild (s1 : State) (repo : String) (v : Nat) (cu : String) (cv : Nat) (bname : String) : State :=
+  let s2 := { s1 with
+    branches := setKey s1.branches (repo ++ (if bname == "" then "master" else bname)) cu,
+    repos := setKey s1.repos cu repo }
+  let s3 := s2.updNode repo v (fun n => { n with children := n.children ++ [cv] })
+  -- `r.dag.nodes[childV] = child`: a map assignment (replaces a node with the same version id)
+  { s3 with nodes := s3.nodes.filter (fun n => !(decide (n.v = cv ∧ n.repo = repo))) ++
+                [⟨cv, cu, repo, [v], [], bname, false⟩] }
+
 /-- `newVersion(parent, note, branchname, assign)` -/
 def newVersion (s : State) (parent : String) (branchname : String) (assign : Option String) : State × Resp :=
   match lookup s.repos parent, lookup s.u2v parent with
@@ -94,30 +118,12 @@ def newVersion (s : State) (parent : String) (branchname : String) (assign : Opt
     | none => (s, .err)
     | some node =>
       if !node.locked then (s, .err)
-      else
-        let sameBranch := branchname == "" || branchname == node.branch
-        let bname := if sameBranch then node.branch else branchname
-        let unique :=
-          if sameBranch then
-            -- no existing child may already continue this branch
-            node.children.all (fun c => match s.node? repo c with
-              | some sis => sis.branch != bname
-              | none => false)          -- "cannot find sibling nodes" error
-          else
-            (s.nodes.filter (·.repo = repo)).all (fun n => n.branch != bname)
-        if !unique then (s, .err)
-        else match newUUID s assign with
+      else match branchOk s repo node branchname with
+        | none => (s, .err)
+        | some bname =>
+          match newUUID s assign with
           | none => (s, .err)
-          | some (s1, cu, cv) =>
-            let key := repo ++ (if bname == "" then "master" else bname)
-            let s2 := { s1 with
-              branches := setKey s1.branches key cu,
-              repos := setKey s1.repos cu repo }
-            let s3 := s2.updNode repo v (fun n => { n with children := n.children ++ [cv] })
-            -- `r.dag.nodes[childV] = child`: a map assignment (replaces a node with the same version id)
-            let s4 := { s3 with nodes := s3.nodes.filter (fun n => !(n.v = cv ∧ n.repo = repo)) ++
-                          [⟨cv, cu, repo, [v], [], bname, false⟩] }
-            (s4, .ok cu)
+          | some (s1, cu, cv) => (attachChild s1 repo v cu cv bname, .ok cu)
   | _, _ => (s, .err)
 
 /-- validation of one merge parent: its version, and that its node is in `repo` and committed -/
@@ -127,6 +133,12 @@ def mergeParentOk (s : State) (repo : String) (p : String) : Option Nat :=
     | some n => if n.locked then some v else none
     | none => none
   | none => none
+
+/-- the mutations of `merge` once the parents are validated and the child's uuid and version id exist -/
+def linkMerge (s1 : State) (repo : String) (pvs : List Nat) (cu : String) (cv : Nat) : State :=
+  let s2 := { s1 with repos := setKey s1.repos cu repo }
+  let s3 := pvs.foldl (fun st pv => st.updNode repo pv (fun n => { n with children := n.children ++ [cv] })) s2
+  { s3 with nodes := s3.nodes ++ [⟨cv, cu, repo, pvs, [], "", false⟩] }
 
 /-- `merge(parents, note, mt)` as the source has it now: when `Gen.mergeValidatesFirst` every parent is
     validated before anything is allocated; otherwise (as first written) the child is allocated and inserted
@@ -140,12 +152,10 @@ def merge (s : State) (parents : List String) : State × Resp :=
         match parents.mapM (mergeParentOk s repo) with
         | none => (s, .err)
         | some pvs =>
+          if Gen.mergeRejectsDuplicateParents && !pvs.Nodup then (s, .err) else
           match newUUID s none with
           | none => (s, .err)
-          | some (s1, cu, cv) =>
-            let s2 := { s1 with repos := setKey s1.repos cu repo }
-            let s3 := pvs.foldl (fun st pv => st.updNode repo pv (fun n => { n with children := n.children ++ [cv] })) s2
-            ({ s3 with nodes := s3.nodes ++ [⟨cv, cu, repo, pvs, [], "", false⟩] }, .ok cu)
+          | some (s1, cu, cv) => (linkMerge s1 repo pvs cu cv, .ok cu)
       else
         match newUUID s none with
         | none => (s, .err)
@@ -166,10 +176,17 @@ def merge (s : State) (parents : List String) : State × Resp :=
 /-- the `tag` handler: `NewVersion(uuid, note, "tag-"+tag, &tag)` then `Commit(tag)` — whether the commit is
     skipped when the new version failed is a regenerated fact -/
 def tag (s : State) (parent : String) (t : String) : State × Resp :=
+  if Gen.tagRejectsEmpty && t == "" then (s, .err) else
   let (s1, r1) := newVersion s parent ("tag-" ++ t) (some t)
   match r1 with
   | .err => if Gen.tagCommitsOnlyOnSuccess then (s1, .err) else ((commit s1 t).1, .err)
   | .ok u => ((commit s1 t).1, .ok u)
+
+/-- one iteration of `deleteRepo`'s loop over the repo's versions: forget the version's uuid everywhere -/
+def dropIds (st : State) (n : Node) : State :=
+  match lookup st.v2u n.v with
+  | none => st
+  | some u => { st with repos := delKey st.repos u, u2v := delKey st.u2v u, v2u := delKey st.v2u n.v }
 
 /-- `deleteRepo(uuid, passcode)` (root uuid required) -/
 def deleteRepo (s : State) (uuid : String) : State × Resp :=
@@ -179,10 +196,7 @@ def deleteRepo (s : State) (uuid : String) : State × Resp :=
     if repo ≠ uuid then (s, .err)
     else
       let mine := s.nodes.filter (·.repo = repo)
-      let s1 := mine.foldl (fun st n =>
-        match lookup st.v2u n.v with
-        | none => st
-        | some u => { st with repos := delKey st.repos u, u2v := delKey st.u2v u, v2u := delKey st.v2u n.v }) s
+      let s1 := mine.foldl dropIds s
       ({ s1 with nodes := s1.nodes.filter (·.repo ≠ repo),
                  repoIds := s1.repoIds.filter (fun p => p.2 ≠ repo) }, .ok uuid)
 
